@@ -319,12 +319,13 @@ class ExprModule:
     ROLES = {"require": ("require", ""), "ensure": ("ensure", ""), "require_async": ("require", "async "),
              "ensure_async": ("ensure", "async ")}
 
-    def __init__(self, exprs: Dict[str, list], ic: Any, role: str = "require") -> None:
+    def __init__(self, exprs: Dict[str, list], ic: Any, role: str = "require", fresh: bool = False) -> None:
         self.ic = ic
         self.role = role
         deco, prefix = self.ROLES[role]
         # every module of a process is "the same file, edited and loaded again": other conditions at the same lines
-        self.filename = "<icv-expr-reloaded>" if role == "require" else "<icv-expr-{}>".format(next(_SERIAL))
+        # (fresh: a file name no module of this process ever had)
+        self.filename = "<icv-expr-reloaded>" if role == "require" and not fresh else "<icv-expr-{}>".format(next(_SERIAL))
         self.fn = {}  # type: Dict[str, Any]
         self.native = {}  # type: Dict[str, Any]
         self.recorded = {}  # type: Dict[str, Any]
@@ -524,12 +525,32 @@ def check_cases(res: CheckResult, prop_clauses: Dict[str, set], cases: List[dict
                 want = viol.get(c["cid"])
                 if want is None:
                     raise MachineryError("case {} is violated but the specification printed no expectation".format(c["cid"]))
+                lines = parse_message(got[1], text) if got[0] == "violation" else None
+                if lines is None and "reloaded" in mod.filename:
+                    # not the message of this violation: is it the message this very violation gets in a module whose file
+                    # name was never used before?  Then what is reported depends on what was loaded / violated earlier.
+                    fresh_mod = ExprModule({"k": c["expr"]}, ic, role, fresh=True)
+                    try:
+                        try:
+                            fresh_mod.call("1", xv, yv)
+                            fresh_msg = None  # type: Any
+                        except ic.ViolationError as exc:
+                            fresh_msg = str(exc)
+                        except Exception:  # noqa
+                            fresh_msg = None
+                    finally:
+                        fresh_mod.close()
+                    if fresh_msg is not None and parse_message(fresh_msg, text) is not None:
+                        _viol(res, prop_clauses, "msg.depends_on_earlier_calls",
+                              "`{}` x={!r} y={!r}: in a module loaded under a file name used before the caller got {!r}, the "
+                              "same violation under a fresh file name gives {!r}".format(
+                                  text, xv, yv, (got[1] if got[0] == "violation" else repr(got[1]))[-200:], fresh_msg[-200:]), c)
+                        continue
                 if got[0] != "violation":
                     _viol(res, prop_clauses, "msg.replaced_by_other_exception",
                           "`{}` with x={!r} y={!r} is falsy; instead of ViolationError the caller got {!r} (cause {!r})".format(
                               text, xv, yv, got[1], getattr(got[1], "__cause__", None)), c)
                     continue
-                lines = parse_message(got[1], text)
                 if lines is None:
                     _viol(res, prop_clauses, "msg.text", "`{}`: message does not carry the condition text: {!r}".format(
                         text, got[1]), c)
